@@ -25,8 +25,14 @@ def _bytes_case():
     def power(m, j, z):
         v = m * 58 ** j
         return v.to_bytes((v.bit_length() + 7) // 8, "big") + b"\x00" * z
+    def near(base, j, d):
+        # just below / at / just above a power of the radix (the digit count changes here)
+        v = max(1, base ** j + d)
+        return v.to_bytes((v.bit_length() + 7) // 8, "big")
     tail = st.one_of(st.just(b""), st.builds(lambda f, r: bytes([f]) + r, st.integers(1, 255), st.binary(max_size=127)),
-                     st.builds(power, st.integers(1, 58 ** 3), st.integers(1, 12), st.integers(0, 3)))
+                     st.builds(power, st.integers(1, 58 ** 3), st.integers(1, 12), st.integers(0, 3)),
+                     st.builds(near, st.just(58), st.integers(1, 170), st.integers(-3, 3)),
+                     st.builds(near, st.just(256), st.integers(1, 120), st.integers(-3, 3)))
     return st.fixed_dictionaries({"z": st.one_of(st.integers(0, 8), st.integers(0, 128)), "tail": tail})
 
 
@@ -75,6 +81,9 @@ def gen_string(tier):
         st.builds(lambda n, t: "1" * n + t, st.integers(1, 12), body),
         st.integers(1, 40).map(lambda n: "1" * n),
         st.sampled_from(list(ALPHA)),
+        # largest-digit runs (values just below a power of 58) and exact powers, alone and with prefix / suffix
+        st.builds(lambda o, n, t: "1" * o + "z" * n + t, st.integers(0, 3), st.integers(1, 60), st.text(alphabet=ALPHA, max_size=8)),
+        st.builds(lambda o, n: "1" * o + "2" + "1" * n, st.integers(0, 3), st.integers(1, 60)),
         # runs of '1' in the middle / at the end (zero digits inside the number)
         st.builds(lambda a, n, b: a + "1" * n + b, st.text(alphabet=ALPHA[1:], min_size=1, max_size=12), st.integers(1, 16),
                   st.text(alphabet=ALPHA, max_size=12)),
@@ -246,6 +255,45 @@ FUZZ_CORPUS = [b"\x00" + b58.encode_check(b"\x00" + bytes(range(20))).encode(), 
                b"\x03\x01\x05" + b"\x80" + bytes(range(32)) + b"\x01", b"\x05\x06\x07" + bytes(78)]
 
 
+# ------------------------------------------------------------------------------ first use from several threads
+def check_cold(case, ctx):
+    """A fresh interpreter whose first Base58 calls happen on 2..3 threads at once (deterministic schedule)."""
+    from vlib import coldrun
+    threads = []
+    wants = []
+    for items in case["threads"]:
+        calls, exp = [], []
+        for payload, op in items:
+            s = b58.encode(payload + b58.sha256d(payload)[:4])
+            if op == "decode_check":
+                calls.append(["helper", "decode_base58_checksum", [s]]); exp.append(("decode_base58_checksum(%r)" % s, {"hex": payload.hex()}))
+            elif op == "decode":
+                calls.append(["helper", "decode_base58", [s]]); exp.append(("decode_base58(%r)" % s, {"hex": (payload + b58.sha256d(payload)[:4]).hex()}))
+            elif op == "encode":
+                calls.append(["helper", "encode_base58", [{"hex": payload.hex()}]]); exp.append(("encode_base58(%s)" % payload.hex(), b58.encode(payload)))
+            else:
+                calls.append(["helper", "encode_base58_checksum", [{"hex": payload.hex()}]]); exp.append(("encode_base58_checksum(%s)" % payload.hex(), s))
+        threads.append(calls)
+        wants.append(exp)
+    out = coldrun.run_case(threads, case["plan"])
+    ctx.count("switches", out["switches"])
+    ctx.nontrivial = out["switches"] >= 2
+    if out["errors"]:
+        raise Violation("C10/cold-start/crashed", "thread raised %r" % (out["errors"],))
+    for t, exp in enumerate(wants):
+        for (what, want), got in zip(exp, out["results"][str(t)]):
+            if got[0] != "ok" or got[1] != want:
+                raise Violation("C10/cold-start/first-use-differs", "in a fresh interpreter whose first Base58 calls run on %d "
+                                "threads at once, %s gave %r, expected %r" % (len(threads), what, got, want))
+
+
+def gen_cold(tier):
+    payload = st.one_of(st.binary(min_size=1, max_size=40), st.builds(lambda z, t: b"\x00" * z + t, st.integers(1, 4), st.binary(min_size=1, max_size=30)))
+    item = st.tuples(payload, st.sampled_from(["decode_check", "decode_check", "decode", "encode", "encode_check"]))
+    return st.fixed_dictionaries({"threads": st.lists(st.lists(item, min_size=1, max_size=3), min_size=2, max_size=3),
+                                  "plan": __import__("vlib.threads", fromlist=["plans"]).plans(max_run=40)})
+
+
 def clauses():
     return [
         Clause("bytes", check_bytes,
@@ -271,6 +319,11 @@ def clauses():
                enum_desc="6 payload shapes x {valid, single-sha, 4 checksum bytes x 4 xor values, "
                          "truncations 0..3, decoded lengths 0..4}",
                n={"quick": 12000, "thorough": 600000}),
+        Clause("cold-start-threads", check_cold,
+               "one fresh interpreter per case: its first 1..3 Base58/Base58Check calls per thread run on 2..3 threads at "
+               "once under the deterministic scheduler (lazily built module state is half-built only once per process); "
+               "every result against the reference; non-trivial = >= 2 thread switches (measured)",
+               gen=gen_cold, n={"quick": 64, "thorough": 2000}, shards={"quick": 16, "thorough": 16}),
         Clause("fuzz-decode", check_fuzz,
                "raw bytes decoded either into (payload, mutation) or into a string over the alphabet plus look-alikes; "
                "hypothesis st.binary in every tier and atheris/libFuzzer campaigns with the reference decoder as "
